@@ -287,7 +287,16 @@ def run_dc(case, o: Oracle) -> None:
     kind = "ele" if info["ele"] else ("rsa" if kt.startswith("rsa") else "ecc")
     major, minor = L.protocol_version(pubs[rot_id])
     uuid, socu, vu, cb = bytes(case["uuid"]), int(case["socu"]), int(case["vu"]), int(case["cb"])
-    by_socc = bool(case["by_socc"]) and not info["ele"] and rev == "latest"
+    by_socc = bool(case["by_socc"]) and not info["ele"]
+    call_rev = rev
+    if by_socc and rev != "latest":
+        # a SoC class that only an older revision has (MCXN54x/94x a0: 6) is reachable through the `socc:` form alone; the
+        # tool then works with the latest revision of the class's ambassador family, whose other attributes must be the same
+        amb = _info(DebugCredentialCertificate.get_family_ambassador(info["socc"]), "latest")
+        if {k: v for k, v in amb.items() if k != "socc"} != {k: v for k, v in info.items() if k != "socc"}:
+            by_socc = False
+        else:
+            call_rev = "latest"
     flag_ca = bool(case["flag_ca"]) and kind == "ele"
     srk_flags = L.SRK_FLAG_CA if flag_ca else 0
 
@@ -304,6 +313,8 @@ def run_dc(case, o: Oracle) -> None:
         o.label("beacon_gt16bit")
     if by_socc:
         o.label("by_socc")
+        if call_rev != rev:
+            o.label("by_socc_older_revision")
     if kind == "ele" and kt.startswith("rsa") and case["signer"] == "sp":
         o.label("dc_pss_via_sign_provider")
     if case["explicit_version"]:
@@ -347,8 +358,8 @@ def run_dc(case, o: Oracle) -> None:
     dc = data = None
     with o.spsdk("create", "dc"):
         family = fam if not by_socc else DebugCredentialCertificate.get_family_ambassador(info["socc"])
-        klass = DebugCredentialCertificate._get_class_from_cfg(config=cfg, family=family, search_paths=[wd], revision=rev)
-        check_config(cfg, klass.get_validation_schemas(family, rev), search_paths=[wd])
+        klass = DebugCredentialCertificate._get_class_from_cfg(config=cfg, family=family, search_paths=[wd], revision=call_rev)
+        check_config(cfg, klass.get_validation_schemas(family, call_rev), search_paths=[wd])
         version = ProtocolVersion("%d.%d" % (major, minor)) if case["explicit_version"] else None
         dc = klass.create_from_yaml_config(config=cfg, version=version, search_paths=[wd])
         dc.sign()
@@ -501,6 +512,26 @@ def run_dc(case, o: Oracle) -> None:
         other_dc[8 + int(case["flip"]) % 16] ^= 0x01  # the same credential issued for another uuid
         o.check("binding", not L.verify(dck_pub, r["signature"], L.dar_signed_data(bytes(other_dc), ab, u, chal), pss=pss), "other_credential_verifies")
     o.label("neg:" + neg)
+    # ---- (f) the same response object answers a second challenge (a debugger session that authenticates again)
+    chal_b = _other(chal, case["chal2"])
+    ab_b = (ab + 1) & 0xFFFF
+    dac_b_bytes = L.build_dac(v[0], v[1], info["socc"], dev_uuid, int(case["revocation"]), dac_hash, int(case["pinned"]), int(case["default"]),
+                              int(case["dac_vu"]), chal_b)
+    dar_b = None
+    with o.spsdk("dar", "second_round"):
+        dar.dac = DebugAuthenticationChallenge.parse(dac_b_bytes)
+        dar.auth_beacon = ab_b
+        dar_b = dar.export()
+    if dar_b is not None:
+        try:
+            rb = L.parse_dar(dar_b, len(data), L.signature_size(dck_pub), ecc_version)
+            o.eq("dar", "second_round_beacon", rb["auth_beacon"], ab_b)
+            o.check("dar", L.verify(dck_pub, rb["signature"], L.dar_signed_data(data, ab_b, u, chal_b), pss=pss), "second_round_verifies",
+                    "the response to a second challenge from the same object is not signed over that challenge and beacon")
+            o.check("binding", not L.verify(dck_pub, rb["signature"], signed, pss=pss), "second_round_signature_of_first_round")
+        except L.LayoutError as exc:
+            o.fail("dar", "second_round_layout", str(exc))
+        o.label("dar_second_round")
 
 
 # ------------------------------------------------------------------ EdgeLock enclave, container version 2 (AHAB certificate)
